@@ -158,6 +158,7 @@ type State struct {
 	nsteps  int
 	trace   []string
 	aborted string
+	exited  bool // os.Exit was called: the path ends here
 }
 
 type havocMark struct {
